@@ -72,6 +72,24 @@ class CallMixin:
                 and f.value.func.id == "super":
             return self.super_call(e, f)
         # list-like local mutation:  name.append(x) ...
+        if isinstance(f, ast.Attribute) and isinstance(f.value, ast.Name) and f.attr in ("add", "discard", "update"):
+            d = self.scope_of(f.value.id)
+            if d is not None and d[f.value.id].t[0] == "set":
+                cur = d[f.value.id]
+                args, _ = self.eval_args(e)
+                items = list(cur.t[1])
+                if f.attr == "add" and args:
+                    if args[0].t not in items:
+                        items.append(args[0].t)
+                elif f.attr == "discard" and args:
+                    items = [x for x in items if x != args[0].t]
+                elif f.attr == "update" and args:
+                    a0 = args[0]
+                    items += list(a0.t[1]) if a0.t[0] in ("list", "tuple", "set") else [("star", a0.t)]
+                self._remember(args)
+                self.emit(Event("local", "set." + f.attr, cur, None, tuple(args), site=self.here(e)))
+                d[f.value.id] = V(("set", tuple(items)), cur.ty, cur.dep | self._deps(args) | self.ctrl_symbols())
+                return NONE
         if isinstance(f, ast.Attribute) and isinstance(f.value, ast.Name) and f.attr in ("append", "extend", "pop",
                                                                                         "insert", "remove"):
             d = self.scope_of(f.value.id)
